@@ -152,6 +152,16 @@ pub struct ClientOp {
     pub done: bool,
 }
 
+pub struct JoinOp {
+    pub id: u64,
+    pub node: u32,
+    pub to: u32,
+    pub rx: MaybeCloneOneshotReceiver<
+        std::result::Result<d_engine_proto::server::cluster::JoinResponse, tonic::Status>,
+    >,
+    pub done: bool,
+}
+
 pub struct Slot {
     pub h: Option<NodeH>,
     /// the surviving store / state machine of a node that is down
@@ -170,6 +180,7 @@ pub struct Cluster {
     pub slots: BTreeMap<u32, Slot>,
     pub clock_ms: u64,
     pub clients: Vec<ClientOp>,
+    pub joins: Vec<JoinOp>,
     pub events: Vec<Value>,
     /// messages consumed by the current step (content), for conformance checking
     pub delivered: Vec<Value>,
@@ -196,6 +207,7 @@ fn node_config(
     cfg.raft.replication.append_entries_max_entries_per_replication = c.cap;
     cfg.raft.batching.max_merge_entries = c.max_merge;
     cfg.raft.read_consistency.lease_duration_ms = c.lease_ms;
+    cfg.raft.learner_check_throttle_ms = 0;
     cfg
 }
 
@@ -232,6 +244,7 @@ impl Cluster {
             slots,
             clock_ms: 1_000,
             clients: vec![],
+            joins: vec![],
             events: vec![],
             delivered: vec![],
             sel: Value::Null,
@@ -375,6 +388,31 @@ impl Cluster {
                 }
             }
         }
+        // join responses
+        for j in self.joins.iter_mut() {
+            if j.done {
+                continue;
+            }
+            use std::future::Future;
+            let waker = futures::task::noop_waker();
+            let mut cx = std::task::Context::from_waker(&waker);
+            match std::pin::Pin::new(&mut j.rx).poll(&mut cx) {
+                std::task::Poll::Ready(Ok(Ok(resp))) => {
+                    j.done = true;
+                    self.events.push(json!({"e":"JoinResp","id":j.id,"n":j.node,"to":j.to,"ok":resp.success,"status":resp.error}));
+                }
+                std::task::Poll::Ready(Ok(Err(st))) => {
+                    j.done = true;
+                    self.events.push(json!({"e":"JoinResp","id":j.id,"n":j.node,"to":j.to,"ok":false,
+                        "status": format!("{:?}:{}", st.code(), st.message())}));
+                }
+                std::task::Poll::Ready(Err(_)) => {
+                    j.done = true;
+                    self.events.push(json!({"e":"JoinResp","id":j.id,"n":j.node,"to":j.to,"ok":false,"status":"channel closed"}));
+                }
+                std::task::Poll::Pending => {}
+            }
+        }
         // client responses
         for c in self.clients.iter_mut() {
             if c.done {
@@ -485,6 +523,9 @@ impl Cluster {
                 self.settle().await;
                 true
             }
+            "Drain" => self.do_drain(g("rounds").max(1) as usize).await,
+            "Join" => self.do_join(g("n") as u32, g("to") as u32).await,
+            "Zombie" => self.do_zombie(g("n") as u32, g("to") as u32).await,
             _ => false,
         };
         done
@@ -892,6 +933,115 @@ impl Cluster {
         true
     }
 
+    /// Quiet period: deliver every message in FIFO order, finish open rounds, let every leader send a
+    /// heartbeat; repeated `rounds` times. No timeouts, no faults.
+    async fn do_drain(
+        &mut self,
+        rounds: usize,
+    ) -> bool {
+        for _ in 0..rounds {
+            for _ in 0..200 {
+                let bag = self.net.bag();
+                let Some(m) = bag.into_iter().find(|m| {
+                    matches!(m.ty(), "VQ" | "AE" | "AR" | "SNAP")
+                }) else {
+                    break;
+                };
+                self.sel = Value::Null;
+                let ok = match m.ty() {
+                    "VQ" => {
+                        if self.is_up(m.to) && !self.is_busy(m.to) {
+                            self.do_deliver_vq(m.from, m.to, false).await
+                        } else {
+                            self.do_drop_vq(m.from, m.to).await
+                        }
+                    }
+                    "AE" => {
+                        if self.is_up(m.to) && !self.is_busy(m.to) {
+                            self.do_deliver_ae(m.from, m.to, 1, 0, false).await
+                        } else {
+                            self.do_drop("AE", m.from, m.to, 0)
+                        }
+                    }
+                    "AR" => {
+                        if self.is_up(m.to) && !self.is_busy(m.to) {
+                            self.do_deliver_ar(m.from, m.to, 0).await
+                        } else {
+                            self.do_drop("AR", m.from, m.to, 0)
+                        }
+                    }
+                    _ => self.do_deliver_snap(m.from, m.to, false).await,
+                };
+                if !ok {
+                    self.net.take(m.id);
+                }
+            }
+            let ids: Vec<u32> = self.slots.keys().cloned().collect();
+            for n in ids.iter() {
+                if self.is_busy(*n) {
+                    self.do_finish_round(*n).await;
+                }
+            }
+            for n in ids {
+                if self.is_up(n) && !self.is_busy(n) {
+                    if let Some(v) = self.view(n) {
+                        if role_str(v.role) == "L" {
+                            self.do_heartbeat(n).await;
+                        }
+                    }
+                }
+            }
+        }
+        self.delivered.clear();
+        true
+    }
+
+    /// Node `n` asks node `to` to join the cluster as a promotable learner (what
+    /// `LearnerState::join_cluster` sends through the transport).
+    async fn do_join(
+        &mut self,
+        n: u32,
+        to: u32,
+    ) -> bool {
+        if !self.is_up(to) || self.is_busy(to) {
+            return false;
+        }
+        let (tx, rx) = MaybeCloneOneshot::new();
+        let req = d_engine_proto::server::cluster::JoinRequest {
+            node_id: n,
+            node_role: role_i32("Ln"),
+            address: format!("127.0.0.1:{}", 9000 + n),
+            status: status_i32("P"),
+        };
+        let id = self.joins.len() as u64 + 1;
+        let known = self.slots[&to].h.as_ref().map(|h| h.membership.clone());
+        let already = match known {
+            Some(m) => m.contains_node(n).await,
+            None => false,
+        };
+        self.events.push(json!({"e":"JoinInvoke","id":id,"n":n,"to":to,"alreadyMember":already,
+            "toRole": role_str(self.view(to).unwrap().role)}));
+        self.joins.push(JoinOp { id, node: n, to, rx, done: false });
+        let _ = self.raft(to).unwrap().verif_inbound(vec![InboundEvent::JoinCluster(req, tx)]).await;
+        self.settle().await;
+        true
+    }
+
+    /// The health monitor of leader `to` reports node `n` as a zombie (leads to BatchRemove).
+    async fn do_zombie(
+        &mut self,
+        n: u32,
+        to: u32,
+    ) -> bool {
+        if !self.is_up(to) || self.is_busy(to) {
+            return false;
+        }
+        let tx = self.raft(to).unwrap().internal_event_sender();
+        let _ = tx.send(InternalEvent::ZombieDetected(n));
+        self.settle().await;
+        true
+    }
+
     async fn do_crash(
         &mut self,
         n: u32,
@@ -1150,6 +1300,20 @@ impl Cluster {
                 }
             }
         }
+        // membership: configured learners may ask any up node to join; rarely a zombie report
+        for (&n, _) in self.slots.iter() {
+            let is_learner_cfg = self.cfg.initial[&n]
+                .iter()
+                .any(|(id, r, _)| *id == n && *r == role_i32("Ln"));
+            if !is_learner_cfg {
+                continue;
+            }
+            for (&to, s) in self.slots.iter() {
+                if to != n && s.h.is_some() && s.round.is_none() {
+                    out.push(json!({"a":"Join","n":n,"to":to}));
+                }
+            }
+        }
         let mut seen = std::collections::BTreeSet::new();
         for m in self.net.bag() {
             let key = (m.ty(), m.from, m.to);
@@ -1307,20 +1471,31 @@ pub fn entry_json(e: &Entry) -> Value {
         }
         None => ("none", "".into()),
     };
-    json!({"i": e.index, "t": e.term, "k": k, "v": v})
+    json!({"i": e.index, "t": e.term, "k": k, "v": v, "ids": cfg_ids(e)})
+}
+
+/// node ids a membership entry talks about (empty for every other entry)
+pub fn cfg_ids(e: &Entry) -> Vec<u32> {
+    match e.payload.as_ref().and_then(|p| p.payload.as_ref()) {
+        Some(Payload::Config(mc)) => match &mc.change {
+            Some(membership_change::Change::AddNode(a)) => vec![a.node_id],
+            Some(membership_change::Change::RemoveNode(r)) => vec![r.node_id],
+            Some(membership_change::Change::Promote(p)) => vec![p.node_id],
+            Some(membership_change::Change::BatchPromote(b)) => b.node_ids.clone(),
+            Some(membership_change::Change::BatchRemove(b)) => b.node_ids.clone(),
+            None => vec![],
+        },
+        _ => vec![],
+    }
 }
 
 fn cfg_str(mc: &d_engine_proto::common::MembershipChange) -> String {
     match &mc.change {
-        Some(membership_change::Change::AddNode(a)) => format!("add:{}", a.node_id),
-        Some(membership_change::Change::RemoveNode(r)) => format!("remove:{}", r.node_id),
-        Some(membership_change::Change::Promote(p)) => format!("promote:{}", p.node_id),
-        Some(membership_change::Change::BatchPromote(b)) => {
-            format!("batchpromote:{}", b.node_ids.iter().map(|x| x.to_string()).collect::<Vec<_>>().join(","))
-        }
-        Some(membership_change::Change::BatchRemove(b)) => {
-            format!("batchremove:{}", b.node_ids.iter().map(|x| x.to_string()).collect::<Vec<_>>().join(","))
-        }
+        Some(membership_change::Change::AddNode(_)) => "add".into(),
+        Some(membership_change::Change::RemoveNode(_)) => "remove".into(),
+        Some(membership_change::Change::Promote(_)) => "promote".into(),
+        Some(membership_change::Change::BatchPromote(_)) => "batchpromote".into(),
+        Some(membership_change::Change::BatchRemove(_)) => "batchremove".into(),
         None => "none".into(),
     }
 }
